@@ -2,7 +2,7 @@
 generators, runner, Coq emitter and the property's own oracle."""
 import numpy as np
 from harness.driver import call_impl, cz, cnat, cbool, czlist, cgrid, clist, cres
-from harness.twins import Logged1, Scribble, make_rule, coq_rule_spec
+from harness.twins import Scribble, make_rule, coq_rule_spec
 
 ID = 'C01'
 COQ_IMPORTS = ('From CPL Require Import Model.Base Model.Rules Model.Engine Model.Evolve1D Corr.C01.\n'
@@ -12,7 +12,7 @@ NONTRIVIAL_RULE = ('non-trivial = evolve returned an array and at least one step
                    'fixed or callable timesteps)')
 EXHAUSTIVE = {'quick': False, 'thorough': False}
 NOTES = ['every (N, r) with 1 <= r <= N <= 8 (thorough: <= 12), every T in 1..4, every rule family, both forms of '
-         '`timesteps` is enumerated; history length and dtype are crossed completely for N <= 3 (thorough: N <= 12, and N <= 6 for callable timesteps)',
+         '`timesteps` is enumerated (history length and dtype random there); history length and dtype are crossed completely for N <= 3 (thorough: N <= 12, and N <= 6 for callable timesteps)',
          'the (n, c, t) argument log is compared in full for every case with N <= 12 and for Script rules at every size',
          'stream floatrule: the rule returns value/4.0 into an int automaton; model store = truncation toward zero',
          'stream scribble: the rule overwrites its neighbourhood argument in place after computing its value '
@@ -20,10 +20,29 @@ NOTES = ['every (N, r) with 1 <= r <= N <= 8 (thorough: <= 12), every T in 1..4,
 ASSUMPTIONS = ['rule results are representable in the automaton dtype (out-of-range results are outside the property)',
                'float automata carry integer-valued floats',
                'T = 0 and r outside 1..N are outside the property and are not generated']
-TRUSTED = ['Python twins Lin1 / LinCT1 / Script / Logged1 / Scribble of harness/twins.py and the Scaled wrapper of harness/props/c01.py']
+TRUSTED = ['Python twins Lin1 / LinCT1 / Aff1 / Script / Scribble of harness/twins.py and the StrictLogged1 / Scaled wrappers of harness/props/c01.py']
 
 DTYPES = ['int32', 'int64', 'uint8', 'float64']
-FAMS = ['script', 'linct', 'lin']
+FAMS = ['script', 'linct', 'lin', 'aff']
+
+
+class StrictLogged1:
+    """records (n, c, t) of every call EXACTLY: a neighbourhood entry that is not an integer value (the automata
+    generated here only hold integer values) is kept as a float and makes the case disagree.  twins.Logged1 and the
+    Lin twins read the neighbourhood through int(x), which would hide a non-integer state handed to the rule."""
+    def __init__(self, f):
+        self.f, self.log, self.exact = f, [], True
+
+    def __call__(self, n, c, t):
+        vals = []
+        for x in np.asarray(n).ravel().tolist():
+            if isinstance(x, float) and not x.is_integer():
+                self.exact = False
+                vals.append(x)
+            else:
+                vals.append(int(x))
+        self.log.append((vals, int(c), int(t)))
+        return self.f(n, c, t)
 
 
 class Scaled:
@@ -79,7 +98,10 @@ def _rule(rng, fam, N, r, T, dtype, scale=1):
         m = rng.choice([2, 3, 7, 256, rng.randint(1, 256)])
     else:
         m = rng.choice([2, 3, 7, 101, -5, -64, rng.randint(1, 500)])
-    return {'fam': fam, 'ws': ws, 'm': m * (scale if scale != 1 and rng.random() < 0.5 else 1)}
+    m = m * (scale if scale != 1 and rng.random() < 0.5 else 1)
+    if fam == 'aff':      # pure affine: the all-zero neighbourhood maps to b mod m, not to 0
+        return {'fam': 'aff', 'ws': ws, 'b': rng.choice([1, 2, 5, -1, rng.randint(-20, 20)]), 'm': m}
+    return {'fam': fam, 'ws': ws, 'm': m}
 
 
 def _case(rng, kind, N, r, T, H, dtype, fam, dyn, scale=1, log=True, scribble=False):
@@ -93,8 +115,7 @@ def _case(rng, kind, N, r, T, H, dtype, fam, dyn, scale=1, log=True, scribble=Fa
 def generate(rng, tier):
     nmax = 8 if tier == 'quick' else 12
     ncross = 3 if tier == 'quick' else 12
-    i = rng.randrange(12)
-    # (1) every (N, r, T, family, fixed|callable); H and dtype cycle so that all pairs occur many times
+    # (1) every (N, r, T, family, fixed|callable); H and dtype drawn at random
     for N in range(1, nmax + 1):
         for r in range(1, N + 1):
             for T in range(1, 5):
@@ -102,9 +123,8 @@ def generate(rng, tier):
                     for dyn in (False, True):
                         if N <= ncross and not dyn:
                             continue        # covered by the complete cross below
-                        i += 1
                         yield _case(rng, 'sweep/%s/%s' % (fam, 'callable' if dyn else 'fixed'), N, r, T,
-                                    1 + (i // 4) % 3, DTYPES[i % 4], fam, dyn)
+                                    rng.randint(1, 3), rng.choice(DTYPES), fam, dyn)
     # (2) complete cross of H and dtype on the small rings
     for N in range(1, ncross + 1):
         for r in range(1, N + 1):
@@ -132,21 +152,24 @@ def generate(rng, tier):
                     rng.random() < 0.3, log=(fam == 'script' or N <= 12))
     # (4) float results into an int automaton: store truncates toward zero
     n_fl = 200 if tier == 'quick' else 2000
-    for _ in range(n_fl):
+    #     T >= 3 in 9 cases of 10: step 2 must read the row as STORED by step 1 (truncated), not the raw results;
+    #     the neighbourhood log is recorded exactly (StrictLogged1), so a non-integer state reaching a rule shows
+    for k in range(n_fl):
         N = rng.randint(1, 8)
         r = rng.randint(1, N)
-        T = rng.randint(2, 4)
-        fam = rng.choice(['script', 'script', 'linct', 'lin'])
+        T = 2 if k % 10 == 9 else rng.randint(3, 5)
+        fam = ['script', 'linct', 'lin', 'aff', 'script'][k % 5]
         dtype = rng.choice(['int32', 'int64', 'uint8'])
-        yield _case(rng, 'floatrule/%s' % fam, N, r, T, rng.randint(1, 2), dtype, fam, rng.random() < 0.3, scale=4)
+        yield _case(rng, 'floatrule/%s/%s' % (fam, 'callable' if k % 3 == 2 else 'fixed'), N, r, T, rng.randint(1, 2),
+                    dtype, fam, k % 3 == 2, scale=4)
     # (5) rules that overwrite their neighbourhood argument in place (after computing their value): every cell
     #     must still receive the states of the previous row, i.e. its own copy of the neighbourhood
     n_sc = 150 if tier == 'quick' else 1500
     for k in range(n_sc):
         N = 3 + k % 10
         r = rng.randint(1, N)
-        fam = FAMS[k % 3]
-        dyn = (k // 3) % 2 == 1
+        fam = FAMS[k % len(FAMS)]
+        dyn = (k // len(FAMS)) % 2 == 1
         yield _case(rng, 'scribble/%s/%s' % (fam, 'callable' if dyn else 'fixed'), N, r, rng.randint(2, 4),
                     rng.randint(1, 2), rng.choice(DTYPES), fam, dyn, scribble=True)
 
@@ -160,7 +183,7 @@ def run_impl(c):
         base = Scaled(base, c['scale'])
     if c.get('scribble'):
         base = Scribble(base)
-    rule = Logged1(base)
+    rule = StrictLogged1(base)
     T = c['T']
     ts = (lambda ca_, t: t < T) if c['dyn'] else T
     res = call_impl(lambda: cpl.evolve(ca, timesteps=ts, apply_rule=rule, r=c['r'], memoize=False))
@@ -168,7 +191,7 @@ def run_impl(c):
         return list(res)
     out = np.asarray(res[1])
     flat = [float(x) for x in out.ravel().tolist()]
-    integral = all(x == x and abs(x) != float('inf') and x == int(x) for x in flat)
+    integral = all(x == x and abs(x) != float('inf') and x == int(x) for x in flat) and rule.exact
     arr = out.tolist() if out.ndim == 2 else None
     if arr is not None and integral:
         arr = [[int(x) for x in row] for row in arr]
@@ -209,6 +232,8 @@ def _value(rule, i, n, cidx, t):
     s = sum(w * x for w, x in zip(rule['ws'], n))
     if rule['fam'] == 'linct':
         s += 3 * cidx + 5 * t
+    if rule['fam'] == 'aff':
+        s += rule['b']
     return s % rule['m']
 
 
@@ -226,7 +251,7 @@ def oracle(c, obs):
     if o['shape'] != [H + T - 1, N]:
         return 'result shape %s, expected %s' % (o['shape'], [H + T - 1, N])
     if not o['integral']:
-        return 'non-integer state in the result'
+        return 'non-integer state in the result or handed to the rule (every row holds integer values here)'
     arr, log = o['array'], o['log']
     if arr[:H] != hist:
         return 'the result does not start with the given history'
